@@ -15,11 +15,12 @@ import (
 // use (append-mode regular files, directories, descriptors that survive unlink, mtimes from the
 // virtual clock). Every call is a scheduling point and is logged for the oracles.
 type FS struct {
-	nfd   int
-	x     *Exec
-	Nodes map[string]*Inode // cleaned path -> node
-	Log   []FSCall
-	Open  map[*File]struct{}
+	FaultOps map[string]bool // kinds of call that may be failed by the explorer (nil = every kind)
+	nfd      int
+	x        *Exec
+	Nodes    map[string]*Inode // cleaned path -> node
+	Log      []FSCall
+	Open     map[*File]struct{}
 }
 
 // Inode is a file or directory.
@@ -63,6 +64,15 @@ type File struct {
 	ID      int
 	real    *os.File
 	special *[]byte
+}
+
+// fault asks the explorer whether this call fails (seam "fault"); FaultOps restricts which kinds of
+// call may fail in this execution (nil = all).
+func (f *FS) fault(op string, n int) int {
+	if f.FaultOps != nil && !f.FaultOps[op] {
+		return 0
+	}
+	return Choose(SeamFault, n)
 }
 
 func newFS(x *Exec) *FS {
@@ -134,7 +144,7 @@ func pathErr(op, path string, err error) error { return &fs.PathError{Op: op, Pa
 func (f *FS) OpenFile(name string, flag int, perm os.FileMode) (*File, error) {
 	Point(KFS, nil)
 	p := clean(name)
-	if Choose(SeamFault, 2) == 1 {
+	if f.fault("open", 2) == 1 {
 		f.log(FSCall{Op: "open", Path: p, Flag: flag, Err: "ENOENT(injected)"})
 		return nil, pathErr("open", name, syscall.ENOENT)
 	}
@@ -195,7 +205,7 @@ func (fl *File) Write(b []byte) (int, error) {
 	}
 	n := len(b)
 	var err error
-	switch Choose(SeamFault, 3) {
+	switch f.fault("write", 3) {
 	case 1:
 		f.log(FSCall{Op: "write", Path: fl.Path, Err: "EIO(injected)", Bytes: len(b), FD: fl.ID, Data: string(b)})
 		return 0, pathErr("write", fl.Path, syscall.EIO)
@@ -242,7 +252,7 @@ func (fl *File) Sync() error {
 		fl.fs.log(FSCall{Op: "sync", Path: fl.Path, Err: "closed", FD: fl.ID})
 		return pathErr("sync", fl.Path, os.ErrClosed)
 	}
-	if Choose(SeamFault, 2) == 1 {
+	if fl.fs.fault("sync", 2) == 1 {
 		fl.fs.log(FSCall{Op: "sync", Path: fl.Path, Err: "EIO(injected)", FD: fl.ID})
 		return pathErr("sync", fl.Path, syscall.EIO)
 	}
@@ -268,7 +278,7 @@ func (fl *File) Close() error {
 	}
 	fl.Closed = true
 	delete(fl.fs.Open, fl)
-	if Choose(SeamFault, 2) == 1 {
+	if fl.fs.fault("close", 2) == 1 {
 		fl.fs.log(FSCall{Op: "close", Path: fl.Path, Err: "EIO(injected)", FD: fl.ID})
 		return pathErr("close", fl.Path, syscall.EIO)
 	}
@@ -347,7 +357,7 @@ func (e *entry) Sys() any           { return nil }
 func (f *FS) ReadDir(dir string) ([]fs.DirEntry, error) {
 	Point(KFS, nil)
 	d := clean(dir)
-	if Choose(SeamFault, 2) == 1 {
+	if f.fault("readdir", 2) == 1 {
 		f.log(FSCall{Op: "readdir", Path: d, Err: "EIO(injected)"})
 		return nil, pathErr("open", dir, syscall.EIO)
 	}
@@ -367,7 +377,7 @@ func (f *FS) ReadDir(dir string) ([]fs.DirEntry, error) {
 func (f *FS) Remove(name string) error {
 	Point(KFS, nil)
 	p := clean(name)
-	if Choose(SeamFault, 2) == 1 {
+	if f.fault("remove", 2) == 1 {
 		f.log(FSCall{Op: "remove", Path: p, Err: "EACCES(injected)"})
 		return pathErr("remove", name, syscall.EACCES)
 	}
